@@ -663,6 +663,31 @@ impl Engine for VcConfig {
                         format!("{other:?}; exit status {:?}; stderr {}", run.status, run.stderr_str().lines().last().unwrap_or("")),
                     )),
                 }
+                // the same run with a prepended and an appended document (one test case each, nothing configured in
+                // them): the command-line layer covers their test cases as well, below it only the format default
+                // (only without `defaults` in the main document: whether those reach test cases taken from other documents is
+                // not stated by the property - scrut hands on the keys the other document's format default leaves unset)
+                if !*cram && *doc == 0 {
+                    sb.write("pre.md", format!("# Pre\n\n```scrut\n$ {cmd}\n{expectation}\n```\n").as_bytes());
+                    sb.write("post.md", format!("# Post\n\n```scrut\n$ {cmd}\n{expectation}\n```\n").as_bytes());
+                    let mut args2: Vec<&str> = args[..args.len() - 1].to_vec();
+                    // (the document first: -P / -A take several paths)
+                    args2.extend([file, "-P", "pre.md", "-A", "post.md"]);
+                    let run2 = run_scrut(&sb, &args2, &[], std::time::Duration::from_secs(60));
+                    let outer = if [*cli, 1].into_iter().find(|v| *v != 0).unwrap() == 1 { "success" } else { "malformed_output" };
+                    let want2 = vec![outer.to_string(), want_kind.to_string(), outer.to_string()];
+                    let kinds2 = run2.json_kinds();
+                    res.outcome.push(("C16", hash64(&("cli-prepend-append", *k, effective, kinds2.as_ref().ok().cloned()))));
+                    match kinds2 {
+                        Ok(ks) if ks == want2 => {}
+                        other => res.findings.push(Finding::new(
+                            "C16",
+                            "command-line-layer-wins",
+                            format!("{name}: command line={cli} inline={inline} document={doc} on a markdown document run with -P pre.md -A post.md (0 unset, 1 = {}, 2 = {}) -> {want2:?}", yaml[1], yaml[2]),
+                            format!("{other:?}; exit status {:?}; stderr {}", run2.status, run2.stderr_str().lines().last().unwrap_or("")),
+                        )),
+                    }
+                }
             }
             CfgCase::RoundTrip { values, env_b } => {
                 let cfg = rt_config(values, *env_b);
